@@ -151,11 +151,15 @@ func genDML(r *randSrc, typ string, uid *int64, ts uint64, db, coll string) msgs
 	id := *uid
 	base := func(t commonpb.MsgType) *commonpb.MsgBase {
 		b := &commonpb.MsgBase{MsgType: t, MsgID: id, Timestamp: ts, SourceID: int64(r.Intn(9))}
-		switch r.Intn(6) {
+		switch r.Intn(8) {
 		case 0: // a message that already carries (foreign) replicate info
 			b.ReplicateInfo = &commonpb.ReplicateInfo{IsReplicate: false, MsgTimestamp: ts - 1}
 		case 1:
 			b.Properties = map[string]string{"p": randName(r.Rand, "")}
+		case 2: // cascaded replication: the message was itself written by a replication with another id
+			b.ReplicateInfo = &commonpb.ReplicateInfo{IsReplicate: true, ReplicateID: randName(r.Rand, "upstream-rid-"), MsgTimestamp: ts - 1}
+		case 3: // ... or by one that had no id configured
+			b.ReplicateInfo = &commonpb.ReplicateInfo{IsReplicate: true, MsgTimestamp: ts - 1}
 		}
 		return b
 	}
